@@ -3,3 +3,7 @@ def fill(claim, not_yet):
 		'The real splitting helpers are executed on thousands of generated bracket-balanced fragments per run; an independent scanner (depth and quote state per index) decides every law of the statement. Exploration is the right level: the input space is unbounded text, the oracle is exact per input.',
 		'Trusted: vf/oracle/brackets.py (70 lines). Unbalanced </> (comparison operators, ->) and escaped quotes inside literals are outside the quantifier ("simple quoted strings") and not generated.',
 		'DESIGN.md §4 C18')
+	claim('C19', 'exploration', 'runtime monitoring: operation histories on real DI/LazyDI containers checked step by step against an executable reference model',
+		'Tens of thousands (quick) to over a million (thorough) random bind/unbind/rebind/resolve/can_resolve/invoke/combine histories are applied to real containers and to a 100-line reference model; identity of resolved objects, arguments received by factories, can_resolve answers and exception classes are compared after every step; failing histories are shrunk. A monitor on DI.invoke records which factory names were invoked before on which container.',
+		'Trusted: vf/oracle/di_model.py. Domain restrictions (acyclic factories, no bind() on a lazily defined unmaterialised symbol, same-class combine, function/method/class factories only) are listed in the evidence assumptions.',
+		'DESIGN.md §4 C19')
